@@ -346,7 +346,7 @@ def afterSpecial (d : Nat) (cis : List CI) (x : M SpecialOut) : M (Option Reply)
     return r
 
 theorem runWith_special_run (special) (mode : Mode) (c : Nat) (sig : Sig) (raw : List Bytes) (fs : Bool) (s : Sys)
-    (h : Cmd.regular sig.name = none) :
+    (h : Cmd.regular sig.name = none) (hr : s.refuses c sig = false) :
     runWith special mode c sig raw fs s =
       (let d := (s.conn c).db
        let ap := sig.apply raw ⟨s.srv.dbs.getD d [], s.srv.time⟩
@@ -358,7 +358,8 @@ theorem runWith_special_run (special) (mode : Mode) (c : Nat) (sig : Sig) (raw :
          match runGate sig fs ((s.conn c).pubsub > 0) with
          | some e => (some (.err (strBytes e)), s1)
          | none => afterSpecial d cis (special mode c sig.name args cis) s1) := by
-  unfold runWith afterSpecial
+  rw [runWith_not_refused special mode c sig raw fs hr]
+  unfold runWithBody afterSpecial
   simp only [bind, StateT.bind, getConn_run, getDb_run, h, setDb_run]
   generalize sig.apply raw ⟨s.srv.dbs.getD (s.conn c).db [], s.srv.time⟩ = ap
   obtain ⟨db', res⟩ := ap
@@ -381,10 +382,13 @@ theorem runWith_congr_state (sp1 sp2) (m1 m2 : Mode) (c : Nat) (sig : Sig) (raw 
     (h : ∀ args cis (s' : Sys), s'.srv.conns = s.srv.conns →
       sp1 m1 c sig.name args cis s' = sp2 m2 c sig.name args cis s') :
     runWith sp1 m1 c sig raw fs s = runWith sp2 m2 c sig raw fs s := by
+  cases hr : s.refuses c sig with
+  | true => rw [runWith_refused sp1 m1 c sig raw fs hr, runWith_refused sp2 m2 c sig raw fs hr]
+  | false =>
   cases hreg : Cmd.regular sig.name with
-  | some body => rw [runWith_regular_run sp1 m1 c sig raw fs hreg, runWith_regular_run sp2 m2 c sig raw fs hreg]
+  | some body => rw [runWith_regular_run sp1 m1 c sig raw fs hreg s hr, runWith_regular_run sp2 m2 c sig raw fs hreg s hr]
   | none =>
-    rw [runWith_special_run sp1 m1 c sig raw fs s hreg, runWith_special_run sp2 m2 c sig raw fs s hreg]
+    rw [runWith_special_run sp1 m1 c sig raw fs s hreg hr, runWith_special_run sp2 m2 c sig raw fs s hreg hr]
     simp only
     split
     · rfl
@@ -1044,8 +1048,12 @@ theorem runInner_regular_blind (mode : Mode) (c c' : Nat) (hne : c' ≠ c) (sig 
     {body : Body} (hreg : Cmd.regular sig.name = some body) : BlindAt c (runInner mode c') sig args := by
   intro q s
   unfold runInner
-  rw [runWith_regular_run _ mode c' sig args false hreg, runWith_regular_run _ mode c' sig args false hreg]
   have hconn : (s.withTx c q).conn c' = s.conn c' := Sys.withTx_conn_ne s q hne
+  have hrr : (s.withTx c q).refuses c' sig = s.refuses c' sig := by unfold Sys.refuses; rw [hconn]
+  cases hr : s.refuses c' sig with
+  | true => rw [runWith_refused _ mode c' sig args false (hrr.trans hr), runWith_refused _ mode c' sig args false hr]
+  | false =>
+  rw [runWith_regular_run _ mode c' sig args false hreg _ (hrr.trans hr), runWith_regular_run _ mode c' sig args false hreg _ hr]
   have ho : (s.withTx c q).regularOut c' sig body args false = s.regularOut c' sig body args false := by
     unfold Sys.regularOut
     rw [hconn]
